@@ -4,6 +4,7 @@ package main
 // and near misses).  Everything random is drawn from the *rand.Rand passed in.
 
 import (
+	"bytes"
 	"fmt"
 	"math/rand"
 	"strings"
@@ -11,7 +12,7 @@ import (
 
 var (
 	litPool    = []string{"a", "b", "ab", "users", "v1", "a.f", "x-y", "B"}
-	rePool     = []string{"[0-9]+", "[a-z]+", "[a-z0-9]+", "[A-Z][A-Z]", "[0-9]{2}"}
+	rePool     = []string{"[0-9]+", "[a-z]+", "[a-z0-9]+", "[A-Z][A-Z]", "[0-9]{2}", "(cats|dogs)"}
 	sufPool    = []string{".f", ".txt", "-x"}
 	verbPool   = []string{":go", ":undo"}
 	methodPool = []string{"GET", "POST", "PUT", "DELETE", "PATCH"}
@@ -42,6 +43,9 @@ func genTok(r *rand.Rand, k tokKind, name string) string {
 	case kVar:
 		return "{" + name + "}"
 	case kRe:
+		if r.Intn(3) == 0 {
+			return "{id:[0-9]+}" // the byte-identical token in several routes, at varying positions
+		}
 		return "{" + name + ":" + pick(r, rePool) + "}"
 	case kSuf:
 		return "{" + name + "}" + pick(r, sufPool)
@@ -93,7 +97,13 @@ func genPathToks(r *rand.Rand, n int, profile string, namePrefix string, allowEn
 				}
 			}
 		}
-		toks = append(toks, genTok(r, k, name))
+		tok := genTok(r, k, name)
+		for _, prev := range toks {
+			if prev == tok && strings.Contains(tok, "{") {
+				tok = "{" + name + "}"
+			}
+		}
+		toks = append(toks, tok)
 	}
 	return toks
 }
@@ -192,7 +202,13 @@ func randomTable(r *rand.Rand, profile string, nreq int) tableCase {
 			continue
 		}
 		seenRoot[root] = true
-		s := serviceSpec{Root: root, Routes: []routeSpec{}}
+		s := serviceSpec{Root: root, Routes: []routeSpec{}, WProd: []string{}, WCons: []string{}}
+		if profile != "allow" && r.Intn(4) == 0 {
+			s.WProd = subsetMimes(r, 30)
+		}
+		if profile != "allow" && r.Intn(4) == 0 {
+			s.WCons = subsetMimes(r, 30)
+		}
 		nr := 1 + r.Intn(5)
 		var base [][]string
 		for j := 0; j < nr; j++ {
@@ -209,6 +225,14 @@ func randomTable(r *rand.Rand, profile string, nreq int) tableCase {
 				}
 			} else {
 				toks = genPathToks(r, r.Intn(4), profile, fmt.Sprintf("x%d_", j), true)
+			}
+			// variable names are distinct within a template
+			seenTok := map[string]bool{}
+			for k, tk := range toks {
+				if strings.Contains(tk, "{") && seenTok[tk] {
+					toks[k] = fmt.Sprintf("{d%d_%d}", j, k)
+				}
+				seenTok[tk] = true
 			}
 			base = append(base, toks)
 			rs := routeSpec{M: methodPool[r.Intn(len(methodPool))], P: joinRoutePath(r, toks, profile),
@@ -239,6 +263,11 @@ func randomTable(r *rand.Rand, profile string, nreq int) tableCase {
 	}
 	for i := 0; i < nreq; i++ {
 		t.Reqs = append(t.Reqs, randomRequest(r, t, profile))
+	}
+	if profile == "mixed" || profile == "headers" {
+		for i := 0; i < 2; i++ {
+			t.Reqs = append(t.Reqs, opaqueRequest(r))
+		}
 	}
 	return t
 }
@@ -278,6 +307,8 @@ func valueFor(r *rand.Rand, tok string) []string {
 			val = pick(r, []string{"AB", "NL"})
 		case "[0-9]{2}":
 			val = pick(r, []string{"12", "00"})
+		case "(cats|dogs)":
+			val = pick(r, []string{"cats", "dogs"})
 		}
 	}
 	return []string{pre + val + suf + verb}
@@ -430,5 +461,44 @@ func randomRequest(r *rand.Rand, t tableCase, profile string) reqSpec {
 			rq.Conds = append(rq.Conds, k)
 		}
 	}
+	return rq
+}
+
+// requests outside the specification's string projection: arbitrary bytes (non-UTF-8), very long
+// paths, only slashes, braces and colons everywhere; arbitrary (header-legal) Accept / Content-Type
+func opaqueRequest(r *rand.Rand) reqSpec {
+	var raw []byte
+	switch r.Intn(6) {
+	case 0:
+		raw = bytes.Repeat([]byte("/"), 1+r.Intn(40))
+	case 1:
+		raw = []byte("/" + strings.Repeat("a/", 20000+r.Intn(12000))) // ~ 64 KiB
+	case 2:
+		n := 1 + r.Intn(60)
+		raw = make([]byte, n)
+		r.Read(raw)
+		raw = append([]byte("/"), raw...)
+	case 3:
+		raw = []byte("/" + strings.Repeat(pick(r, []string{"{", "}", ":", "*", "{x:*}", "%", ".", ".."}), 1+r.Intn(30)))
+	case 4:
+		raw = []byte("/" + strings.Repeat("\xff\xfe/", 1+r.Intn(10)) + "{\x00}")
+	default:
+		raw = []byte("/a/" + strings.Repeat("x", 70000))
+	}
+	hv := func() string {
+		n := r.Intn(40)
+		b := make([]byte, n)
+		for i := range b {
+			b[i] = byte(0x21 + r.Intn(0x5e)) // visible ASCII
+		}
+		return string(b)
+	}
+	rq := reqSpec{M: pick(r, append(methodPool, "HEAD", "OPTIONS", "TRACE", "BREW")), Opaque: true, Raw: string(raw), Conds: []int{},
+		CT: pick(r, []string{"", hv(), "application/json"}), Acc: pick(r, []string{"", hv(), ";;;,,,q=", "*/*;q=x"})}
+	esc := escapePath(string(raw))
+	if len(esc) > 120 {
+		esc = esc[:60] + fmt.Sprintf("...(%d bytes)...", len(raw)) + esc[len(esc)-40:]
+	}
+	rq.Path = esc
 	return rq
 }
